@@ -3,8 +3,8 @@
 From Coq Require Import List String ZArith.
 From SP Require Import GoLang.
 Import ListNotations.
-Open Scope string_scope.
-Open Scope Z_scope.
+Local Open Scope string_scope.
+Local Open Scope Z_scope.
 
 (* saltpack.IsSaltpackBinarySlice, classify_and_decrypt.go *)
 Definition f_saltpack_IsSaltpackBinarySlice : gfunc := mkFunc "saltpack.IsSaltpackBinarySlice" ["b"] [("msgType", "int"); ("version", "Version"); ("err", "error")]
